@@ -277,25 +277,36 @@ class SolverRun:
                     bycoord.setdefault(tuple(float(t) for t in it.GetY().floatVariables), []).append(it)
         self.matched = getattr(self, "matched", set())
         log = self.rp.log
+        pending = log[self.flushed:]
+        joined = {}
+        # pass 1: by identity of the point object; pass 2: the solver may hand the objective a copy of the trial's point - join through
+        # the value holder it passed; pass 3: failing both, by coordinates among the items still unmatched (a painter's own
+        # evaluation at a trial's coordinates is told apart in passes 1-2; pass 3 is ambiguous if several trials share a cell)
+        for ent in pending:
+            it = bypoint.get(id(ent["point"]))
+            if it is not None:
+                joined[id(ent)] = it
+                self.matched.add(id(it))
+        for ent in pending:
+            if id(ent) in joined or "exc" in ent:
+                continue
+            cand = byholder.get(id(ent.get("holder_in")))
+            if cand is not None and cand.GetIndex() >= 0 and id(cand) not in self.matched \
+                    and tuple(float(t) for t in cand.GetY().floatVariables) == tuple(ent["y"]):
+                joined[id(ent)] = cand
+                self.matched.add(id(cand))
+        for ent in pending:
+            if id(ent) in joined or "exc" in ent:
+                continue
+            for cand in bycoord.get(tuple(ent["y"]), []):
+                if id(cand) not in self.matched:
+                    joined[id(ent)] = cand
+                    self.matched.add(id(cand))
+                    break
         while self.flushed < len(log):
             ent = log[self.flushed]
             self.flushed += 1
-            it = bypoint.get(id(ent["point"]))
-            if it is None and "exc" not in ent:
-                # the solver may hand the objective a copy of the trial's point: join through the value holder it passed ...
-                cand = byholder.get(id(ent.get("holder_in")))
-                if cand is not None and cand.GetIndex() >= 0 and id(cand) not in self.matched \
-                        and tuple(float(t) for t in cand.GetY().floatVariables) == tuple(ent["y"]):
-                    it = cand
-            if it is None and "exc" not in ent:
-                # ... or, failing that, by coordinates (first unmatched evaluated item; ambiguous if several trials share a cell)
-                # the solver may hand the objective a copy of the trial's point: join by coordinates (first unmatched evaluated item)
-                for cand in bycoord.get(tuple(ent["y"]), []):
-                    if id(cand) not in self.matched:
-                        it = cand
-                        break
-            if it is not None:
-                self.matched.add(id(it))
+            it = joined.get(id(ent))
             if "exc" in ent:
                 self.emit({"ev": "fail", "ylog": qv(ent["y"]), "exc": ent["exc"], "k": ent["k"], "xinv": self.inverse_of(ent["y"])})
             elif it is None:
